@@ -267,10 +267,53 @@ class Discharger:
             else: kinds.add('other')
         if kinds and kinds <= {'zero', 'inc'} and self._has_slice_loop(body):
             return 'R6: counter starts at 0 and is incremented at most once per element of a collection (length <= isize::MAX)'
+        # (iv) the increment runs under the test `l < bound` of the same type with l untouched in between: l + 1 <= bound
+        if b['int'] == '1' and self._below_a_bound(body, s.bi, l):
+            return 'R6: the increment is guarded by `counter < bound` (same type, counter unchanged since the test), so counter + 1 <= bound'
         # (iii) operand is a collection / string length (or max(const, len)): <= isize::MAX, so + small constant fits
         if self._is_len_like(body, defs, l, 0):
             return 'R6: operand is a length (<= isize::MAX) plus a constant <= 2'
         return None
+
+    def _below_a_bound(self, body, bi, l):
+        blocks = body['blocks']
+        for bl in blocks:        # the counter is a plain local: never borrowed mutably, never written through a projection
+            for st in bl['stmts']:
+                if st['k'] == 'Assign' and st['rv']['k'] in ('Ref', 'RawPtr', 'AddressOf') and st['rv'].get('place', {}).get('local') == l and st['rv'].get('mut'): return False
+                if st['k'] == 'Assign' and st['rv']['k'] in ('RawPtr', 'AddressOf') and st['rv'].get('place', {}).get('local') == l: return False
+        preds = {}
+        for i, bl in enumerate(blocks):
+            t = bl['term']; succ = []
+            if t['k'] == 'SwitchInt': succ = [x[1] for x in t['targets']] + [t['otherwise']]
+            elif t.get('target') is not None: succ = [t['target']]
+            for j in succ:
+                if isinstance(j, int): preds.setdefault(j, []).append(i)
+        def writes(bl, with_term=True):
+            for st in bl['stmts']:
+                if st['k'] == 'Assign' and st['place']['local'] == l: return True
+            t = bl['term']
+            return with_term and t['k'] == 'Call' and (t.get('dest') or {}).get('local') == l
+        cur = bi
+        if any(st['k'] == 'Assign' and st['place']['local'] == l for st in blocks[cur]['stmts']): return False
+        for _ in range(12):
+            ps = preds.get(cur, [])
+            if len(ps) != 1: return False
+            p = ps[0]; pb = blocks[p]; t = pb['term']
+            if t['k'] == 'SwitchInt':
+                if t['otherwise'] != cur or [x[0] for x in t['targets']] != ['0'] or t['targets'][0][1] == cur or t.get('discr_ty') != 'bool': return False
+                d = t['discr'].get('local'); cmpst = None; copies = {}
+                for st in pb['stmts']:
+                    if st['k'] != 'Assign': continue
+                    if st['place']['local'] == l: cmpst = None; copies = {}; continue         # written after the copy: start over
+                    rv = st['rv']
+                    if rv['k'] == 'Use' and rv['op'].get('k') == 'Copy' and rv['op'].get('local') == l and not rv['op']['proj'] and not st['place']['proj']: copies[st['place']['local']] = True
+                    if st['place']['local'] == d and rv['k'] == 'BinaryOp' and rv['op'] == 'Lt': cmpst = rv
+                if cmpst is None: return False
+                lhs = cmpst['lhs']
+                return lhs.get('k') in ('Copy', 'Move') and not lhs['proj'] and (lhs['local'] == l or lhs['local'] in copies)
+            if writes(pb): return False
+            cur = p
+        return False
 
     def _trace_range_item(self, body, defs, l, depth=0):
         if depth > 6: return False
